@@ -28,17 +28,22 @@ def obligations(tier):
     # the stub's prediction is a function of the test object only, so the N-thread result equals the sequential one iff every object is
     # predicted by a model trained on exactly the other objects of its fold, for every thread count
     from . import C05
-    def cv(id, defs, unwind, ignore=()):
+    def cv(id, defs, unwind, ignore=(), timeout=None, flags=()):
         d = dict(defs); d.setdefault('HP_XC', 1)
-        obs.append(Ob(id=id, harness='C05/cv.c', tus=C05.T, defs=d, engine='bits', unwind=unwind, timeout=to, clause='a run with N threads equals the sequential run', remove=C05.REMOVE,
+        obs.append(Ob(id=id, harness='C05/cv.c', tus=C05.T, defs=d, engine='bits', unwind=unwind, timeout=timeout or to, flags=flags, clause='a run with N threads equals the sequential run', remove=C05.REMOVE,
                       stubs=('sym_pthread_sync.c',), ignore_props=ignore, object_bits=11))
     for t in ((1, 2, 3) if not th else (1, 2, 3, 4, 5)):
         for algo, an in ((0, 'mlr'), (2, 'lda')):
             if not th and algo == 2 and t != 2: continue
             cv(f'threads/loo/{an}/n4t{t}', {'HP_CV': 0, 'HP_ALGO': algo, 'HP_N': 4, 'HP_NY': 1, 'HP_T': t, 'HP_NLV': 1, 'HP_G': 1}, 8)
         cv(f'threads/kfold/mlr/n4t{t}/groups0120', {'HP_CV': 1, 'HP_ALGO': 0, 'HP_N': 4, 'HP_NY': 1, 'HP_T': t, 'HP_NLV': 1, 'HP_G': 3, 'HP_GROUPS': '0,1,2,0'}, 8)
-    for (it, t) in ([(2, 1), (2, 2)] if not th else [(2, 1), (2, 2), (3, 1), (3, 3), (4, 2)]):
+    for (it, t) in ([(2, 1), (2, 2)] if not th else [(2, 1), (2, 2), (3, 1), (3, 3)]):      # one round per worker only: with several rounds CBMC reports the end of this harness unreachable although the native run completes (not understood; several rounds are covered by seed_protocol/* below)
         cv(f'threads/bootstrap/mlr/n4g2it{it}t{t}', {'HP_CV': 2, 'HP_ALGO': 0, 'HP_N': 4, 'HP_NY': 1, 'HP_T': t, 'HP_NLV': 1, 'HP_G': 2, 'HP_IT': it, 'HP_RNG_DISTINCT': 1}, 8)
         if t > 1:      # the same call with one thread consumes the same multiset of seeds (two runs in one query: smallest data set)
             cv(f'threads/bootstrap_seeds/mlr/n2g1it{it}t{t}', {'HP_CV': 2, 'HP_ALGO': 0, 'HP_N': 2, 'HP_NY': 1, 'HP_T': t, 'HP_NLV': 1, 'HP_G': 1, 'HP_IT': it, 'HP_RNG_DISTINCT': 1, 'HP_SEEDCMP': 1}, 18)
+    # seed protocol across thread counts with several rounds per worker (workers not run: recording pthread model)
+    from . import C05 as _C05
+    for (it, t) in ([(2, 2), (4, 2), (6, 3), (6, 2), (3, 3)] if not th else [(2, 2), (4, 2), (6, 3), (6, 2), (3, 3), (8, 4), (8, 2), (9, 3), (12, 4)]):
+        obs.append(Ob(id=f'seed_protocol/it{it}t{t}', harness='C06/seed_protocol.c', tus=_C05.T, defs={'HP_IT': it, 'HP_T': t}, engine='bits', unwind=max(it, 6) + 2, timeout=to,
+                      clause='a run with N threads consumes the seeds of the sequential run', object_bits=11))
     return obs
